@@ -433,8 +433,24 @@ class Closing:
 def sym_attr(interp, o, name, fr, node):
     ctx = interp.ctx
     if isinstance(o, SStr):
+        if name == "isascii":
+            def isascii_():
+                from .core import isascii, str_facts
+                for f in str_facts(o.t):
+                    ctx.assume(f)
+                ctx.assume(z3.Implies(isascii(o.t), encodable(o.t)))      # lone surrogates are not ASCII
+                return lower(isascii(o.t))
+            return SymMethod(isascii_, "isascii")
         if name == "encode":
             def encode(encoding="utf-8", errors="strict"):
+                if encoding.lower().replace("_", "-") in ("ascii", "us-ascii"):
+                    from .core import isascii, str_facts
+                    for f in str_facts(o.t):
+                        ctx.assume(f)
+                    ctx.assume(z3.Implies(isascii(o.t), encodable(o.t)))
+                    if not ctx.decide(isascii(o.t)):
+                        raise PyRaise(UnicodeEncodeError, "ordinal not in range(128)")
+                    encoding = "utf-8"        # for an ASCII string both codecs give the same bytes
                 if encoding.lower().replace("_", "-") not in ("utf-8", "utf8"):
                     raise Undecided("non-utf8 encode")
                 if not ctx.decide(encodable(o.t)):
@@ -608,7 +624,10 @@ def m_len(interp, fr, v):
     if isinstance(v, SSeq):
         return lower(v.n)
     if isinstance(v, SStr):
-        raise Undecided("len(str) of symbolic string")
+        from .core import clen, str_facts
+        for f in str_facts(v.t):
+            interp.ctx.assume(f)
+        return lower(clen(v.t))
     if isinstance(v, SOpt):
         if interp.ctx.decide(v.is_none):
             raise PyRaise(TypeError, "object of type 'NoneType' has no len()")
